@@ -187,6 +187,9 @@ func vpQuietAgentConfig(dir string) *config.Config {
 	cfg := config.Default()
 	cfg.Agent.DataDir = dir
 	cfg.Agent.LogLevel = "error"
+	if lv := os.Getenv("VP_DEBUG_LOG"); lv != "" {
+		cfg.Agent.LogLevel = lv
+	}
 	cfg.SOCKS5.Enabled = false
 	cfg.HTTP.Enabled = false
 	cfg.Listeners = nil
